@@ -1039,7 +1039,7 @@ def run_state(c, rec):
             d = f.mesh.region.dims
             f.rotate90(d[stp["ax"][0]], d[stp["ax"][1]], k=stp["k"], inplace=True)
         hist.append(op)
-        cur = check_now(rec, f, f"after-{i}-{op}", isreal)
+        cur = check_now(rec, f, f"after-{op}", isreal)
     cur = read_back(f.mesh)
     rfft = bool(c.get("rfft"))
     st, k = attempt(lambda: f.mesh.fftn(rfft=rfft))
